@@ -7,4 +7,4 @@ GROUPS = [
 ASSUMPTIONS = ['deque operations by the owner-side contracts enforced under C02; thieves only take from the top',
                'the scheduler object is used only by its own kernel thread (C01 ownership)']
 # obligation groups of other properties' specifications that this property also rests on (its anchors name those files); see DESIGN.md 11.2
-IMPORTS = [dict(prop='C01', groups=['yield_switch', 'maintenance'])]
+IMPORTS = [dict(prop='C01', groups=['yield_switch', 'maintenance']), dict(prop='C02', groups=['load_balance_N1', 'load_balance_N2', 'load_balance_N3'])]
